@@ -26,14 +26,14 @@ func init() {
 		ID: "C18", Level: "exploration", Primary: "behaviours", EvalCount: "offending_connections",
 		Rule: "TLS configurations {server authentication only; client certificate required and verified (harness PKI on a gldap.Server, and testdirectory.Start(WithMTLS))} x offending client behaviours {plaintext LDAP request of each of " +
 			"the seven operations carrying a unique tag; arbitrary bytes; TCP connect without ClientHello; partial ClientHello; and - where a certificate is required - a TLS 1.2 and a TLS 1.3 handshake without certificate " +
-			"followed immediately by a tagged bind (in TLS 1.3 the client finishes first, so the request is already in flight when the server rejects), a certificate from a different CA, an expired certificate, and a client certificate that is valid for ANOTHER test directory / GetTLSConfig call of the same process}; plaintext requests are also followed by further writes on the same socket, " +
+			"followed immediately by a tagged bind (in TLS 1.3 the client finishes first, so the request is already in flight when the server rejects), a certificate from a different CA, an expired certificate, certificate-less and foreign-CA clients that offer TLS 1.0/1.1 only, and a client certificate that is valid for ANOTHER test directory / GetTLSConfig call of the same process}; plaintext requests are also followed by further writes on the same socket; a session that satisfies the configuration is closed with close_notify both ways and the client then sends a tagged plaintext request on the same TCP connection; " +
 			"run concurrently with conforming clients that are verified; also crafted chains (a foreign leaf followed by certificates the configured CA did issue), configurations that deliver their certificate or themselves through callbacks, a different configuration given to NewServer, and abandoned handshakes held open while a conforming client must be served within 10s. Oracle: after each offending connection has been reported closed, no handler record (recording handlers / the test directory's own handler log) carries an offending tag. " +
 			"distinct_nontrivial = distinct (configuration, behaviour, operation) combinations",
 		Assume: []string{"for the test directory, handler execution is observed through its own Info-level handler log lines (bind/search/add/modify/delete handlers log the DN) and through directory state"},
 		Phases: func(tier string, seed int64) []Phase {
 			return []Phase{{Name: "gating", Run: c18Run}, {Name: "testdirectory-mtls", Run: c18Directory}}
 		},
-		MinObserved: []string{"offending_connections", "conforming_ops_verified", "tls13_no_cert_requests_in_flight", "directory_offending_connections", "stranger_certificates_prepared", "conforming_clients_served_next_to_abandoned_handshakes", "sessions_carried_over_to_a_server_with_another_ca"},
+		MinObserved: []string{"offending_connections", "conforming_ops_verified", "tls13_no_cert_requests_in_flight", "directory_offending_connections", "stranger_certificates_prepared", "conforming_clients_served_next_to_abandoned_handshakes", "sessions_carried_over_to_a_server_with_another_ca", "conforming_sessions_closed_properly_then_continued_in_plaintext"},
 	})
 }
 
@@ -169,6 +169,40 @@ func c18Behaviours(mtls bool, pki *PKI, postOp string) []c18Behaviour {
 			return true
 		}},
 	)
+	// a session that satisfies the configuration is closed properly (close_notify both ways) by a client that keeps the
+	// TCP connection and then speaks plaintext LDAP on it: the TLS port has no "TLS layer removed" state
+	for _, v := range []uint16{tls.VersionTLS12, tls.VersionTLS13} {
+		for _, op := range []string{"bind", "search", "unbind"} {
+			v, op := v, op
+			out = append(out, c18Behaviour{fmt.Sprintf("conforming-session-%x-closed-then-plaintext-%s", v, op), op, func(addr, tag string, pki *PKI) bool {
+				cfg := &tls.Config{RootCAs: pki.CAPool, ServerName: "localhost", InsecureSkipVerify: true, MinVersion: v, MaxVersion: v}
+				if mtls {
+					cfg.Certificates = []tls.Certificate{pki.Client}
+				}
+				cn, err := net.DialTimeout("tcp", addr, 5*time.Second)
+				if err != nil {
+					return false
+				}
+				defer cn.Close()
+				tc := tls.Client(cn, cfg)
+				cn.SetDeadline(time.Now().Add(10 * time.Second))
+				if err := tc.Handshake(); err != nil {
+					return false
+				}
+				tc.CloseWrite()
+				buf := make([]byte, 4096)
+				for {
+					if _, err := tc.Read(buf); err != nil {
+						break
+					}
+				}
+				cn.SetDeadline(time.Now().Add(3 * time.Second))
+				cn.Write(c18Frames(tag)[op])
+				cn.Read(buf)
+				return true
+			}})
+		}
+	}
 	if mtls {
 		noCert := func(min, max uint16) *tls.Config {
 			return &tls.Config{RootCAs: pki.CAPool, ServerName: "localhost", MinVersion: min, MaxVersion: max, InsecureSkipVerify: true}
@@ -186,6 +220,11 @@ func c18Behaviours(mtls bool, pki *PKI, postOp string) []c18Behaviour {
 			c18Behaviour{"tls13-no-certificate-then-search", "search", c18TLSThenBind(noCert(tls.VersionTLS13, tls.VersionTLS13), "search")},
 			c18Behaviour{"foreign-ca-certificate-then-unbind", "unbind", c18TLSThenBind(with(pki.ForeignCli), "unbind")},
 			c18Behaviour{"tls13-no-certificate", postOp, c18TLSThenBind(noCert(tls.VersionTLS13, tls.VersionTLS13), postOp)},
+			// clients that offer old protocol versions only
+			c18Behaviour{"tls10-no-certificate", postOp, c18TLSThenBind(noCert(tls.VersionTLS10, tls.VersionTLS10), postOp)},
+			c18Behaviour{"tls11-no-certificate", postOp, c18TLSThenBind(noCert(tls.VersionTLS11, tls.VersionTLS11), postOp)},
+			c18Behaviour{"tls10-to-11-no-certificate", postOp, c18TLSThenBind(noCert(tls.VersionTLS10, tls.VersionTLS11), postOp)},
+			c18Behaviour{"tls11-foreign-ca-certificate", postOp, c18TLSThenBind(&tls.Config{ServerName: "localhost", Certificates: []tls.Certificate{pki.ForeignCli}, InsecureSkipVerify: true, MinVersion: tls.VersionTLS10, MaxVersion: tls.VersionTLS11}, postOp)},
 			c18Behaviour{"foreign-ca-certificate", postOp, c18TLSThenBind(with(pki.ForeignCli), postOp)},
 			c18Behaviour{"expired-certificate", postOp, c18TLSThenBind(with(pki.ExpiredCli), postOp)},
 		)
@@ -364,6 +403,9 @@ func c18Run(c *Ctx) {
 					c.Distinct("behaviours", cfgName+"/"+bh.Name)
 					if bh.Name == "tls13-no-certificate" && inflight {
 						c.Count("tls13_no_cert_requests_in_flight", 1)
+					}
+					if strings.HasPrefix(bh.Name, "conforming-session-") && inflight {
+						c.Count("conforming_sessions_closed_properly_then_continued_in_plaintext", 1)
 					}
 				}()
 			}
